@@ -59,8 +59,9 @@ type MEnt struct {
 type MapC struct{ Ents []MEnt }
 type TupleV struct{ F []Value }
 type IterV struct {
-	Ents []MEnt
-	Step int
+	Ents  []MEnt
+	Step  int
+	Sched []*Term // -maporder: the slot chosen at each earlier step (schedule variables)
 }
 type FuncV struct {
 	Fn    *ssa.Function
